@@ -48,6 +48,37 @@ func C07(ctx *core.Ctx) {
 	ctx.Rule("C07.R3", "unsubscribe reaches workers: the loop's quit channel is closed exactly once on Unsubscribe's success path and the broker subscription is cancelled", 4)
 	ctx.Rule("C07.R4", "ack discipline: a message is acknowledged only on the nil-error edge of the callback", 1)
 	ctx.Rule("C07.R6", "fresh channels per subscriber transport instance", 4)
+	ctx.Rule("C07.R7", "no drop between broker and workers: the subscription handler hands each message to the work queue with a plain (back-pressure) send", 1)
+	for h := range msgHandlers(r) {
+		if h.Signature.Recv() == nil {
+			continue
+		}
+		it := ssax.Iface(r.Pkg, "FSubscriberTransport")
+		if it == nil || !types.Implements(h.Signature.Recv().Type(), it) {
+			continue
+		}
+		n := 0
+		for _, ss := range SendSites(h) {
+			if !isMsgChan(ss.Chan.Type()) {
+				continue
+			}
+			n++
+			ctx.Check(!ss.InSelect, "C07.R7", ssax.Name(h)+" › enqueue is a plain send", r.IPos(ss.Instr), "blocking send (NATS back-pressure)", "the handler drops (or times out) a message when the work queue is full: a published message never reaches the subscriber's handler")
+		}
+		if n == 0 {
+			ctx.Violate("C07.R7", ssax.Name(h)+" › enqueues the message", fnPos(r, h), "the subscription handler does not hand the message to the work queue")
+		}
+		// every path through the handler enqueues
+		bad := ssax.PathFrom(h, nil, ssax.IsReturn, func(in ssa.Instruction) bool {
+			for _, ss := range SendSites(h) {
+				if ss.Instr == in {
+					return true
+				}
+			}
+			return false
+		})
+		ctx.Check(bad == nil, "C07.R7", ssax.Name(h)+" › every message is enqueued", fnPos(r, h), "no path returns without the send", "the handler can return without enqueueing the message")
+	}
 
 	subs := r.Impl("FSubscriberTransport", "Subscribe")
 	loopsAll := receiveLoops(r)
